@@ -73,7 +73,7 @@ Lemma side_cases a b : a = b \/ a = other b.  Proof. destruct a, b; cbn; auto. Q
 
 Lemma update_inbox_self n s e q sent : inbox (update n s e q sent) s = q.
 Proof. destruct s; reflexivity. Qed.
-Lemma update_inbox_other n s e q sent : inbox (update n s e q sent) (other s) = inbox n (other s) ++ sent.
+Lemma update_inbox_other n s e q sent : inbox (update n s e q sent) (other s) = inbox n (other s) ++ map on_wire sent.
 Proof. destruct s; reflexivity. Qed.
 
 (* what one step does to the queues, stream by stream *)
@@ -409,3 +409,11 @@ Lemma network_example :
   got tr SB 2 = [([x05], [x06]); ([], [x09])] /\ got tr SA 1 = [([x07], [x08])] /\
   inbox (fst (net_run net_init ls)) SA = [] /\ inbox (fst (net_run net_init ls)) SB = [].
 Proof. vm_compute. repeat split. Qed.
+
+(* on_wire is what the pipeline does to a complete payload frame: the sender's (single) fragment of it, as decoded *)
+Lemma on_wire_is_pipeline sid ign co nx md d :
+  norm (mk_fragment (FPayload sid ign false co nx md d) true None md d) = on_wire (FPayload sid ign false co nx md d).
+Proof. reflexivity. Qed.
+
+Lemma on_wire_carried f : carried (on_wire f) = carried f /\ fsid (on_wire f) = fsid f /\ ftype (on_wire f) = ftype f.
+Proof. destruct f; repeat split; reflexivity. Qed.
